@@ -39,6 +39,10 @@ func containerBase(v ssa.Value) (ssa.Value, bool) {
 			throughField = true
 			v = x.X
 		case *ssa.Extract:
+			// comma-ok map lookups; a result of a call is a base of its own
+			if _, isCall := x.Tuple.(*ssa.Call); isCall {
+				return v, throughField
+			}
 			v = x.Tuple
 		default:
 			return v, throughField
